@@ -178,7 +178,7 @@ static void ProcessFile(char const* FileName, LongWord Offset) {
     LongWord InpStart, SumLen;
     Word     InpLen, TransLen, ResLen;
     Boolean  doit;
-    LongWord ErgStart, ErgStop;
+    LongWord ErgStart, ErgStop, TargPos;
     LongInt  NextPos;
     Word     ErgLen = 0;
     Byte     Gran;
@@ -255,10 +255,24 @@ static void ProcessFile(char const* FileName, LongWord Offset) {
 
                 /* in Zieldatei an passende Stelle */
 
-                if (fseek(TargFile,
-                          (((ErgStart - StartAdr) * Gran) / SizeDiv) + abs(StartHeader),
-                          SEEK_SET)
-                    == -1) {
+                {
+                    /* number of bytes of the selected lane in front of this record: whole
+                       lane groups plus what the partial group in front of it contributes */
+
+                    LongWord Period  = ((LongWord)ANDMask | (ANDMask >> 1)) + 1, a;
+                    LongWord ByteOfs = (ErgStart - StartAdr) * Gran;
+
+                    TargPos = ByteOfs / SizeDiv;
+                    if (SizeDiv != 1) {
+                        TargPos = (ByteOfs / Period) * (Period / SizeDiv);
+                        for (a = ByteOfs - (ByteOfs % Period); a < ByteOfs; a++) {
+                            if (((StartAdr * Gran + a) & ANDMask) == ANDEq) {
+                                TargPos++;
+                            }
+                        }
+                    }
+                }
+                if (fseek(TargFile, TargPos + abs(StartHeader), SEEK_SET) == -1) {
                     ChkIO(TargName);
                 }
 
